@@ -71,6 +71,7 @@ def search(
 
         def init():
             H.quiet_logging()
+            H.quiet_stderr()
             H.freeze(H.DEFAULT_DAY)
 
         results = H.parallel_fold(tasks, work, list, fold, merge, workers=ctx.workers, init=init)
